@@ -64,6 +64,33 @@ def canon_va(v):
     return [c(v["length"]) or [], c(v["range"]) or [], "true" if v["email"] else "false", "true" if v["url"] else "false"]
 
 
+MAX_DROPPED_SHARE = 0.05
+
+
+def is_skipped(o):
+    return isinstance(o.detail, dict) and o.detail.get("skipped") == "out-of-domain"
+
+
+def add_judged(rep, stream, outs, **kw):
+    """rep.add without the out-of-domain cases: they are not judged, their number goes to the evidence
+    (rep.extra["out_of_domain_dropped"][stream]); more than 5 % of a stream dropped is a broken generator."""
+    outs = list(outs)
+    dropped = [o for o in outs if is_skipped(o)]
+    kept = [o for o in outs if not is_skipped(o)]
+    if dropped:
+        d = rep.extra.setdefault("out_of_domain_dropped", {})
+        e = d.setdefault(stream, {"dropped": 0, "of": 0, "samples": []})
+        e["dropped"] += len(dropped)
+        e["samples"] = (e["samples"] + [o.detail.get("fields") for o in dropped])[:3]
+    if outs:
+        tot = rep.extra.setdefault("out_of_domain_dropped", {}).setdefault(stream, {"dropped": 0, "of": 0, "samples": []})
+        tot["of"] += len(outs)
+        if len(outs) >= 20 and len(dropped) > MAX_DROPPED_SHARE * len(outs):
+            raise vlib.BuildError("stream %s: %d of %d cases are outside the domain (more than 5 %%): %s"
+                                  % (stream, len(dropped), len(outs), json.dumps(dropped[0].detail.get("fields"))[:600]))
+    rep.add(stream, kept, **kw)
+
+
 def evaluate(structs, check_whole=True):
     """structs: list of {"fields": [...]}; returns one Outcome per struct"""
     cases = [{"id": i, "src": G.struct_rust(s["fields"])} for i, s in enumerate(structs)]
@@ -87,10 +114,14 @@ def evaluate(structs, check_whole=True):
         details = []
         whole = o["whole"]
         any_panic = False
+        # a struct holding a field outside the domain (Spec in_domain, decided by the extracted model) is not judged:
+        # it is dropped by add_judged, which counts it in the evidence and fails only above 5 % of a stream
+        ood = [f for f, m in zip(s["fields"], r) if m[2] != "true"]
+        if ood:
+            outs.append(Outcome({"fields": s["fields"]}, True, True, None, {"skipped": "out-of-domain", "fields": ood}, False))
+            continue
         for i, (f, fo, m) in enumerate(zip(s["fields"], o["fields"], r)):
             model, toks, domain, flags, ok_impl, read_impl, read_model, ok_model, expected = m
-            if domain != "true":
-                raise vlib.BuildError("generator produced an out-of-domain field: %s" % json.dumps(f))
             # generator / printer validation against syn
             lits = [x["value"] for x in fo["lits"]]
             if lits != G.declared_literals(f):
@@ -214,6 +245,9 @@ def judge_chains(structs, gots, via="cli"):
     res = vlib.run_runner("c11-fields", sexps)
     outs = []
     for s, got, b, r in zip(structs, gots, base, res):
+        if is_skipped(b):
+            outs.append(Outcome({"fields": s["fields"], "via": via}, True, True, None, dict(b.detail), False))
+            continue
         ok = True
         corr = b.corr
         kfs = []
@@ -277,6 +311,11 @@ def evaluate_histories(hists):
     for hi, h in enumerate(hists):
         ok = corr = True
         det = []
+        skipped = [o for (a, si, k), o in zip(index, judged) if a == hi and is_skipped(o)]
+        if skipped:
+            outs.append(Outcome({"steps": h["steps"], "edits": h.get("edits"), "via": "history"}, True, True, None,
+                                {"skipped": "out-of-domain", "fields": skipped[0].detail.get("fields")}, False))
+            continue
         for (a, si, k), o in zip(index, judged):
             if a != hi:
                 continue
@@ -301,24 +340,24 @@ def run(rep):
     rng = random.Random(rep.seed)
     quick = rep.tier == "quick"
     cor = corpus_cases()
-    rep.add("corpus", evaluate([c for _, c in cor if "steps" not in c]), sample_count=3)
-    rep.add("corpus-history", evaluate_histories([c for _, c in cor if "steps" in c]))
+    add_judged(rep, "corpus", evaluate([c for _, c in cor if "steps" not in c]), sample_count=3)
+    add_judged(rep, "corpus-history", evaluate_histories([c for _, c in cor if "steps" in c]))
     ex = G.exhaustive_structs()
-    rep.add("exhaustive", evaluate(ex))
-    rep.add("offsets", evaluate(G.offset_structs(rep.tier)))
+    add_judged(rep, "exhaustive", evaluate(ex))
+    add_judged(rep, "offsets", evaluate(G.offset_structs(rep.tier)))
     orders = G.order_structs(rep.tier)
-    rep.add("orders", evaluate(orders))
+    add_judged(rep, "orders", evaluate(orders))
     n_clean, n_wild = (8000, 3000) if quick else (60000, 25000)
     clean = [G.gen_struct(rng, False) for _ in range(n_clean)]
-    rep.add("clean", evaluate(clean))
+    add_judged(rep, "clean", evaluate(clean))
     wild = [G.gen_struct(rng, True) for _ in range(n_wild)]
-    rep.add("wild", evaluate(wild))
+    add_judged(rep, "wild", evaluate(wild))
     # the real binary: the exhaustive structs, a sample of clean ones and ASCII-only wild ones
     n_cli = 300 if quick else 2000
     cli = ex + orders[:60] + clean[:n_cli] + [s for s in wild if no_panic_struct(s)][:n_cli]
-    rep.add("cli", evaluate_cli(cli))
+    add_judged(rep, "cli", evaluate_cli(cli))
     hists = G.history_cases(rng, 40 if quick else 400)
-    rep.add("history", evaluate_histories(hists))
+    add_judged(rep, "history", evaluate_histories(hists))
     rep.extra["history_edits"] = {k: sum(1 for h in hists for e in h["edits"] if e == k) for k in sorted({e for h in hists for e in h["edits"]})}
     nf = lambda ss: sum(len(s["fields"]) for s in ss)
     rep.extra["distribution"] = {
@@ -335,8 +374,8 @@ def replay(rep, payload):
     for it in items:
         c = it["case"]
         if c.get("via") == "history":
-            rep.add("history", evaluate_histories([{"steps": c["steps"], "edits": c.get("edits") or []}]))
+            add_judged(rep, "history", evaluate_histories([{"steps": c["steps"], "edits": c.get("edits") or []}]))
         elif c.get("via") == "cli":
-            rep.add("cli", evaluate_cli([{"fields": c["fields"]}]))
+            add_judged(rep, "cli", evaluate_cli([{"fields": c["fields"]}]))
         else:
-            rep.add(it.get("stream", "replay"), evaluate([{"fields": c["fields"]}]))
+            add_judged(rep, it.get("stream", "replay"), evaluate([{"fields": c["fields"]}]))
